@@ -33,6 +33,7 @@ struct Shared {
     events: Mutex<Vec<String>>,
     msgs: AtomicUsize,
     controlled: bool,
+    idb: usize,                                     // observer id of party 0 of this policy (batches: 10 * policy index)
     held: Mutex<std::collections::VecDeque<(usize, MpcMsg, oneshot::Sender<Result<(), E>>)>>,   // MPC messages of the slow link, in sending order
 }
 /// (from, to): MPC messages on this link are handed over only when the rest of the system has stopped moving (C12, server level)
@@ -62,7 +63,10 @@ impl PolicyClient for Cl {
         let s = match result { Ok(l) => format!("Ok({l})"), Err(OutputError::Cancelled) => "Cancelled".to_string(), Err(e) => format!("Err({})", e.to_string().chars().take(60).collect::<String>()) };
         // a real destination is a network call: the notification has been delivered only when this future completes
         tokio::time::sleep(Duration::from_millis(6)).await;
-        self.sh.events.lock().unwrap().push(format!("output {} {s}", self.me)); self.sh.outputs.lock().unwrap().push((self.me, s)); Ok(())
+        self.sh.events.lock().unwrap().push(format!("output {} {s}", self.me)); self.sh.outputs.lock().unwrap().push((self.me, s));
+        // batches: the completed delivery takes its place in the global sequence of actor steps
+        { let snap: Vec<usize> = SEMS.lock().unwrap().iter().map(|s| s.available_permits()).collect(); OBS2.lock().unwrap().push((self.sh.idb + self.me, "OutputDelivered".into(), String::new(), String::new(), snap)); }
+        Ok(())
     }
 }
 
@@ -89,7 +93,7 @@ struct Sys { sh: Arc<Shared>, handles: Vec<PolicyStateHandle>, joins: Vec<tokio:
 fn sys(n: usize, conc: usize, controlled: bool) -> Sys { sys_with((0..n).map(|_| Arc::new(Semaphore::new(conc))).collect(), 0, controlled) }
 /// one policy's actors on hosts that share the given per-host semaphores with other policies; observer ids are `id_base + party`
 fn sys_with(sems: Vec<Arc<Semaphore>>, id_base: usize, controlled: bool) -> Sys {
-    let n = sems.len(); let sh = Arc::new(Shared { controlled, ..Default::default() }); let (mut hs, mut js) = (vec![], vec![]);
+    let n = sems.len(); let sh = Arc::new(Shared { controlled, idb: id_base, ..Default::default() }); let (mut hs, mut js) = (vec![], vec![]);
     for me in 0..n { let (st, h) = PolicyState::new(Cl { sh: sh.clone(), me }, sems[me].clone()); let st = st.with_verif_id(id_base + me); js.push(tokio::spawn(st.start())); hs.push(h); }
     sh.handles.set(hs.clone()).ok(); Sys { sh, handles: hs, joins: js, sems }
 }
@@ -118,7 +122,7 @@ async fn explore2(s: &Sys, r: &mut Rng, fail: Option<(&'static str, usize)>, mut
 /// a coordination RPC (kind, from, to) that the explorer does not release while this is set
 static HOLD: Mutex<Option<(&'static str, usize, usize)>> = Mutex::new(None);
 #[derive(Debug, Clone)]
-enum Inject { Cancel(usize), MsgOob(usize), DupSchedule(usize, bool), StrayRun(usize), StrayConsts(usize), StrayValidate(usize), RescheduleWith(usize, &'static str), LateSchedule(usize) }
+enum Inject { Cancel(usize), MsgSelf(usize), MsgOob(usize), DupSchedule(usize, bool), StrayRun(usize), StrayConsts(usize), StrayValidate(usize), RescheduleWith(usize, &'static str), LateSchedule(usize) }
 /// a party whose own schedule call is NOT issued at the start of the scenario but by `Inject::LateSchedule` (its prepared policy waits in `LATE_POLICY`)
 static LATE: Mutex<Option<usize>> = Mutex::new(None);
 static LATE_POLICY: Mutex<Option<Policy>> = Mutex::new(None);
@@ -137,6 +141,8 @@ async fn do_inject(s: &Sys, inj: Inject, log: &mut Vec<String>) {
             // what the destination of the cancelled party holds at the very moment `cancel()` returns
             let now: Vec<String> = s.sh.outputs.lock().unwrap().iter().filter(|(q, _)| *q == p).map(|(_, x)| x.clone()).collect();
             format!("{res} at-return={}", now.join("|")) }
+        // an MPC message that names the RECEIVER itself as its sender: the index is in range, no engine ever reads that queue
+        Inject::MsgSelf(p) => format!("{:?}", tokio::time::timeout(t, s.handles[p].mpc_msg(MpcMsg { from: p, data: vec![1, 2, 3] })).await.map(|r| r.map_err(|e| format!("{e:?}")))),
         Inject::MsgOob(p) => format!("{:?}", tokio::time::timeout(t, s.handles[p].mpc_msg(MpcMsg { from: 9, data: vec![1, 2, 3] })).await.map(|r| r.map_err(|e| format!("{e:?}")))),
         Inject::LateSchedule(p) => { let pol = LATE_POLICY.lock().unwrap().take().expect("late policy prepared"); let h = s.handles[p].clone();
             *LATE_TASK.lock().unwrap() = Some(tokio::spawn(async move { tokio::time::timeout(Duration::from_secs(20), h.schedule(pol)).await })); "scheduled".to_string() }
@@ -336,8 +342,8 @@ async fn main() {
                     if !bad.is_empty() { failures.push(json!({"witness": "C14:stray-before-late-schedule", "failure": bad, "case": json!({"n": n, "leader": leader, "late_follower": fol, "stray": format!("{stray:?}"), "log": o.log})})); }
                     continue;
                 }
-                let mut at = r.below(6) as usize; let victim = r.below(n as u64) as usize; let kind = r.below(6); if kind == 1 || kind == 2 { at = at.max(1); } if kind == 5 { at = 2 * (n - 1); } // a validate is only *invalid for the state* once the party is past AwaitingValidation
-                let inj = match kind { 0 => Inject::MsgOob(victim), 1 => Inject::DupSchedule(victim, false), 2 => Inject::DupSchedule(victim, true), 3 => Inject::StrayRun(victim), 4 => Inject::StrayConsts(victim), _ => Inject::StrayValidate(victim) };
+                let mut at = r.below(6) as usize; let victim = r.below(n as u64) as usize; let kind = if (10..14).contains(&case) { 6 } else { r.below(7) }; if kind == 1 || kind == 2 || kind == 6 { at = at.max(1); } if kind == 5 { at = 2 * (n - 1); } // a validate is only *invalid for the state* once the party is past AwaitingValidation
+                let inj = match kind { 0 => Inject::MsgOob(victim), 1 => Inject::DupSchedule(victim, false), 2 => Inject::DupSchedule(victim, true), 3 => Inject::StrayRun(victim), 4 => Inject::StrayConsts(victim), 6 => Inject::MsgSelf(victim), _ => Inject::StrayValidate(victim) };
                 let inj2 = inj.clone(); let mut done = false;
                 let o = scenario(n, leader, &outs, consts, &vec![prog; n], &vec![leader; n], 1, &mut r, None, move |step, idle| if !done && (step >= at || idle >= 1 + (at as u64) / 3) { done = true; Some(inj2.clone()) } else { None }).await; execs += 1; correspond(&mut m, &o, None, &mut disagreements, &mut steps);
                 *dist.entry(format!("inject:{}", format!("{inj:?}").split('(').next().unwrap())).or_default() += 1; distinct.insert(format!("{:?}", (format!("{inj:?}"), at, n)));
@@ -345,7 +351,7 @@ async fn main() {
                 if o.panicked.iter().any(|p| *p) { bad.push(("C14-a:msg-index-panic", format!("actor panicked ({inj:?}) reply {reply}"))); }
                 let disturbed = (0..n).any(|p| outs[p] && o.outputs.iter().filter(|(q, _)| *q == p).map(|(_, s)| s.clone()).collect::<Vec<_>>() != vec![want.clone()]);
                 // a stray command that arrives before the party's own schedule legitimately changes the flow (e.g. a bogus validate); only count disturbance when the reply was an error
-                if disturbed && !o.panicked.iter().any(|p| *p) && reply.contains("Err(") { let w = match inj { Inject::DupSchedule(_, true) => "C14-c:illtyped-dup-schedule", Inject::DupSchedule(_, false) => "C14-b:dup-schedule-replaces-endpoints", _ => "C14:other-disturbance" };
+                if disturbed && !o.panicked.iter().any(|p| *p) && (reply.contains("Err(") || matches!(inj, Inject::MsgSelf(_))) { let w = match inj { Inject::DupSchedule(_, true) => "C14-c:illtyped-dup-schedule", Inject::DupSchedule(_, false) => "C14-b:dup-schedule-replaces-endpoints", _ => "C14:other-disturbance" };
                     bad.push((w, format!("computation disturbed by {inj:?} at step {at}: outputs {:?} reply {reply}", o.outputs))); }
                 for (w, b) in bad { failures.push(json!({"witness": w, "failure": b, "case": desc(json!({"inject": format!("{inj:?}"), "at": at, "log": o.log}))})); }
                 if samples.len() < 2 { samples.push(desc(json!({"inject": format!("{inj:?}"), "at": at, "reply": reply}))); }
@@ -364,6 +370,7 @@ async fn main() {
                     let mut bad = vec![];
                     if ok && at_return != got { bad.push(format!("when cancel() returned Ok the destination held {at_return:?}, in the end {got:?}: a notification was sent after cancel had returned")); }
                     if ok && got.len() != 1 { bad.push(format!("destination got {got:?} (want exactly one notification)")); }
+                    if got.len() > 1 { bad.push(format!("the destination was notified {} times: {got:?} (cancel replied {reply})", got.len())); }
                     if !o.finished[victim] { bad.push("state machine of the cancelled party still running at the end".to_string()); }
                     if o.permits[victim] != 1 { bad.push(format!("permit not returned: {}", o.permits[victim])); }
                     if !bad.is_empty() { failures.push(json!({"witness": "C15:cancel-with-consts-in-flight", "failure": bad, "case": json!({"n": n, "leader": leader, "victim": victim, "held_then_failed": "consts 0->1", "reply": reply, "log": o.log})})); }
@@ -403,6 +410,8 @@ async fn main() {
                 *dist.entry(format!("cancel_at:{at}")).or_default() += 1; distinct.insert(format!("{:?}", (at, victim, n, leader)));
                 let reply = o.log.iter().skip_while(|l| !l.starts_with("inject")).nth(1).cloned().unwrap_or_default(); let ok = reply.contains("Ok(Ok(()))");
                 let got: Vec<String> = o.outputs.iter().filter(|(q, _)| *q == victim).map(|(_, s)| s.clone()).collect(); let want = expected_prog(n, prog);
+                // whatever cancel() returned (Ok, an error, or nothing because the environment held it up): a destination is never notified twice
+                if got.len() > 1 { failures.push(json!({"witness": "C15:two-notifications", "failure": format!("the destination of the cancelled party was notified {} times: {got:?} (cancel replied {reply})", got.len()), "case": desc(json!({"cancel_at": at, "victim": victim, "log": o.log}))})); }
                 if reply.contains("Elapsed") { let mut bad = vec![];
                     // the environment may legitimately hold the cancel up (a withheld RPC); once everything has been released it must have taken effect
                     if !o.finished[victim] { bad.push("cancel never returned and the state machine is still running at the end of the scenario".to_string()); }
@@ -530,6 +539,14 @@ async fn main() {
                             max_certain[host] = max_certain[host].max(certain);
                             if certain > conc && bad.len() < 3 { bad.push(format!("host {host}: {certain} leader computations hold a permit at once, concurrency is {conc}")); }
                             if snap[host] > conc || conc - snap[host] < certain && bad.len() < 3 { bad.push(format!("host {host}: {certain} leaders are past the permit point but only {} permits are taken", conc - snap[host].min(conc))); } } }
+                    // a led computation is IN PROGRESS at its leader from the moment the leader holds the permit (state Validated) until its result has been
+                    // delivered to the leader's destination (or, without destination, until the leader's state machine has stopped): never more than `conc` at once
+                    { let mut started: Vec<bool> = vec![false; k]; let mut done: Vec<bool> = vec![false; k];
+                      for (id, cmd, _b, after, _snap) in &b.obs { let (j, p) = (id / 10, id % 10); if j >= k || p != leaders_b[j] { continue; }
+                        if cmd == "OutputDelivered" || (after == "Stopped" && !outs_b[j][p]) { done[j] = true; }
+                        if after == "Validated" && !started[j] { started[j] = true;
+                            let live = (0..k).filter(|q| leaders_b[*q] == p && started[*q] && !done[*q]).count();
+                            if live > conc && bad.len() < 3 { bad.push(format!("host {p}: policy {j} obtained a permit while {} other led computations had not delivered their result yet (concurrency {conc})", live - 1)); } } } }
                     if b.permits.iter().any(|p| *p != conc) { bad.push(format!("permits after the batch: {:?}, budget {conc}", b.permits)); }
                     for j in 0..k { if b.sched[j].iter().any(|x| x != "Ok") { bad.push(format!("policy {j}: schedule results {:?}", b.sched[j])); } if b.finished[j].iter().any(|f| !f) { bad.push(format!("policy {j}: state machines not stopped {:?}", b.finished[j])); }
                         for p in 0..2 { let got: Vec<&String> = b.outputs[j].iter().filter(|(q, _)| *q == p).map(|(_, s)| s).collect(); if outs_b[j][p] && got != vec![&want] { bad.push(format!("policy {j} party {p}: destination got {got:?}")); } } }
